@@ -87,6 +87,7 @@ DC_VARIANTS = {
     "priv": ["a: typing.Any", "_p: int = 5", "b: typing.Any = 2"],
     "cvar": ["a: typing.Any", "CV: typing.ClassVar[int] = 7", "b: typing.Any = 2"],
     "privcvar": ["a: typing.Any", "_p: int = 5", "CV: typing.ClassVar[int] = 7", "b: typing.Any = 2"],
+    "barecvar": ["a: typing.Any", "CV: typing.ClassVar = 7", "b: typing.Any = 2"],  # unsubscripted ClassVar
     "allpriv": ["_p: typing.Any", "_q: typing.Any = 2"],
 }
 AN_VARIANTS = {
@@ -94,6 +95,7 @@ AN_VARIANTS = {
     "priv": (["a: typing.Any", "_p: int", "b: typing.Any"], ["a", "_p", "b"]),
     "cvar": (["a: typing.Any", "CV: typing.ClassVar[int] = 7", "b: typing.Any"], ["a", "b"]),
     "privcvar": (["a: typing.Any", "_p: int", "CV: typing.ClassVar[int] = 7", "b: typing.Any"], ["a", "_p", "b"]),
+    "barecvar": (["a: typing.Any", "CV: typing.ClassVar = 7", "b: typing.Any"], ["a", "b"]),  # unsubscripted ClassVar
     "allpriv": (["_p: typing.Any", "_q: typing.Any"], ["_p", "_q"]),
 }
 UN_FIELDS = {"plain": ["a", "b"], "priv": ["a", "_p", "b"], "allpriv": ["_p", "_q"]}
@@ -151,7 +153,7 @@ def _universe_src() -> str:
                 L.append(f"        self.{f} = " + ("a" if f == fields[0] else "b" if f == fields[-1] else "5"))
             L.append(f"    def __repr__(self):\n        return '{name}(' + ', '.join('%s=%r' % (f, getattr(self, f)) for f in {fields!r}) + ')'")
             L.append(f"MAKE[{name!r}] = {name}")
-            _reg(name, flav, flav, "classvar" if "cvar" in var else var)
+            _reg(name, flav, flav, "classvar-bare" if var == "barecvar" else "classvar" if "cvar" in var else var)
     # ---- slots-only / vars-only classes without annotations; the constructor signature is a dimension
     for pre, flav in (("SO", "slots-only"), ("VO", "vars-only")):
         for var, sig in UN_COMBOS:
